@@ -484,7 +484,9 @@ func newBucketStorage(
 	var (
 		pairs   = BucketPairs(buckets)
 		storage = bucketStorage{
-			buckets:  buckets,
+			// keep a private copy: the stored set is compared against later
+			// requests, which must not see the caller rewriting its slice
+			buckets:  copyBuckets(buckets),
 			hbuckets: make([]histogramBucket, 0, len(pairs)),
 		}
 	)
@@ -497,6 +499,16 @@ func newBucketStorage(
 	}
 
 	return storage
+}
+
+func copyBuckets(buckets Buckets) Buckets {
+	switch b := buckets.(type) {
+	case DurationBuckets:
+		return append(DurationBuckets(nil), b...)
+	case ValueBuckets:
+		return append(ValueBuckets(nil), b...)
+	}
+	return buckets
 }
 
 type bucketCache struct {
